@@ -41,6 +41,9 @@ def run(ctx):
     ctx.rule("R20-7", "after `cd` only directories are offered whatever has been typed of the argument: the test that selects "
                       "the directory-only completer is a pure prefix test on the line (`^ *cd +`, nothing constrained after "
                       "the separator)")
+    ctx.rule("R20-8", "what the completer writes inside an open double quote is read back unchanged: the characters the tokenizer "
+                      "unescapes inside double quotes (computed by exploring parse_line's character loop, as in C16 R16-3) "
+                      "are exactly characters wrap_sep_string escapes there")
     ctx.rule("R20-2", "inside an open quote q, wrap_sep_string(q, name) escapes every character special inside q")
     ctx.rule("R20-3", "candidates: entries whose name starts_with the typed prefix; non-directories skipped when "
                       "for_dir; result sorted; unquoted names go through escape_path, quoted ones through wrap_sep_string")
@@ -57,6 +60,21 @@ def run(ctx):
             ctx.floor("R20-5", crate, "index-space obligations", n, 2)
             quote_state_rule(ctx, crate)
         cd_prefix_rule(ctx, crate)
+        from .c16 import dq_roundtrip_rule
+        n0 = len(ctx.obligations)
+        v0 = set(ctx.violations)
+        dq_roundtrip_rule(ctx, crate)
+        for o in ctx.obligations[n0:]:
+            if o["rule"] == "R16-3":
+                o["rule"] = "R20-8"
+                if o.get("key"):
+                    o["key"] = "R20-8" + o["key"][5:]
+        for k in [k for k in ctx.violations if k not in v0]:
+            v = ctx.violations.pop(k)
+            if v["rule"] == "R16-3":
+                v["rule"] = "R20-8"
+                v["key"] = "R20-8" + v["key"][5:]
+            ctx.violations[v["key"]] = v
     ctx.notes.append("completers exist only in the bin crate; the lib crate has no instance of these rules")
 
 
